@@ -29,7 +29,7 @@ JudgeRet(e) ==
      <<"success-returns-what-the-server-sent", (e.ok /\ e.kind \in Good) => (e.prof.srv = e.srv /\ e.prof.dt = e.sentdt)>>,
      <<"uptodate-returns-held-profile", (e.kind = "uptodate" /\ held.k = "whole") => (e.ok /\ e.prof.srv = held.srv /\ e.prof.dt = held.dt)>>,
      <<"older-profile-refused", (e.kind = "older" /\ held.k = "whole" /\ held.dt > e.sentdt) => ~e.ok>>,
-     <<"bad-answer-fails (" \o e.kind \o ")", (e.kind \in {"error", "garbage", "neterr"}) => ~e.ok>>,
+     <<"bad-answer-fails (" \o e.kind \o ")", (e.kind \in {"error", "garbage", "invalid", "neterr"}) => ~e.ok>>,
      <<"success-from-own-server", e.ok => e.prof.srv = e.srv>>,
      <<"failure-leaves-cache", (~e.ok /\ ~e.concurrent) => (e.unchanged /\ e.endfile = e.startfile)>>,
      <<"success-leaves-newest-in-cache", (e.ok /\ ~e.concurrent) => (e.endfile.k = "whole" /\ e.endfile.srv = e.srv /\ e.endfile.dt = e.prof.dt)>> >>
